@@ -118,6 +118,36 @@ func chachaTarget(p path, key, nonce, pt, ad []byte, dstPrefix []byte, spareEnou
 				return false, nil, fmt.Errorf("failed Open left data in dst's spare capacity: byte %d of the would-be plaintext region is %#02x (neither zeroed nor untouched); region %s", i, region[i], ev.Hex(region[:need]))
 			}
 		}
+		// the same rejected input opened IN PLACE (dst = buf[:k], ciphertext = buf[k:]): it must be
+		// rejected as well and the buffer may hold zeros or the ciphertext it held, never plaintext
+		if len(f[0]) >= 16 {
+			pl := len(dstPrefix)
+			rec, chk2 := placed(5, pl+len(f[0]), pl+len(f[0]))
+			copy(rec, dstPrefix)
+			copy(rec[pl:], f[0])
+			var out2 []byte
+			var err2 error
+			if perr := catch(func() { out2, err2 = a.Open(rec[:pl], clone(f[1]), rec[pl:], clone(f[2])) }); perr != nil {
+				return false, nil, fmt.Errorf("in-place Open: %v", perr)
+			}
+			if err2 == nil {
+				return true, out2[min(pl, len(out2)):], fmt.Errorf("in-place Open accepted the input that Open into a separate buffer rejected")
+			}
+			if out2 != nil {
+				return false, out2, fmt.Errorf("in-place Open returned an error AND a non-nil plaintext slice")
+			}
+			if e := chk2(); e != nil {
+				return false, nil, fmt.Errorf("in-place Open wrote out of bounds: %v", e)
+			}
+			if !bytes.Equal(rec[:pl], dstPrefix) {
+				return false, nil, fmt.Errorf("failed in-place Open modified dst[:len(dst)]")
+			}
+			for i := 0; i < need; i++ {
+				if b := rec[pl+i]; b != 0 && b != f[0][i] {
+					return false, nil, fmt.Errorf("failed in-place Open left byte %d of the buffer as %#02x: neither zeroed nor the ciphertext byte %#02x", i, b, f[0][i])
+				}
+			}
+		}
 		return false, nil, nil
 	}
 	tg.same = func(int, []byte, []byte) bool { return false }
